@@ -178,7 +178,11 @@ def r2_slots(ctx, sgn, qfn):
                 ctx.violation("C16.R2", "C16.R2|default-weight", "an element without `;` gets weight %s, not 1000" % short(q, 40))
         elif semi == "Some":
             s = repr(q)
-            if qfn not in s:
+            from_parser = qfn in s
+            if not from_parser and is_const(q):
+                # the path may have tested the parsed weight against a constant (then the value is folded): accept if so
+                from_parser = any(isinstance(t, tuple) and qfn in repr(t) and v == q[1] for t, v in o.cons.known.items())
+            if not from_parser:
                 ctx.violation("C16.R2", "C16.R2|weight-source", "a weighted element's quality does not come from the qvalue parser: %s" % short(q, 80))
     want = {"gzip", "identity", "*"}
     if set(slots) != want:
@@ -195,11 +199,27 @@ def r2_slots(ctx, sgn, qfn):
         if o.kind == "return" and not any(e["k"] == "loop_enter" for e in o.events):
             if o.value != const(0):
                 ctx.violation("C16.R2", "C16.R2|early-true", "should_gzip answers %s before reading any element" % short(o.value, 40))
-    nfalse = sum(1 for o in outs if o.kind == "return" and any(e["k"] == "loop_enter" for e in o.events) and
-                 o.cons.variant_of(_next_term(o)) == "Some")
+    nfalse = 0
+    for o in outs:
+        if o.kind == "return" and any(e["k"] == "loop_enter" for e in o.events) and o.cons.variant_of(_next_term(o)) == "Some":
+            nfalse += 1
+            # a return from inside the element loop is only allowed when the element's weight is unparseable
+            failed = any((isinstance(t, tuple) and v in ("None", "Err") and (qfn in repr(t) or "strip_prefix" in repr(t)[:200]))
+                         for t, v in o.cons.variant.items())
+            if not failed:
+                ctx.violation("C16.R2", "C16.R2|early-return", "should_gzip returns %s from inside the element loop although the element parsed: "
+                              "elements later in the header can no longer override it (the answer depends on element order)" % short(o.value, 20),
+                              where=_row_where(o))
     ctx.ok("C16.R2", "absent / non-ASCII header and unparseable weights answer false", detail={"rows": nfalse})
     ctx.floor("C16.R2", nrows, 6, what="per-element rows")
     return outs, slots, header
+
+
+def _row_where(o):
+    for e in reversed(o.events):
+        if "span" in e:
+            return F.loc(e["span"])
+    return None
 
 
 def _next_term(o):
